@@ -1,13 +1,21 @@
-"""Check of property C02 - open-file I/O behaves as os.File."""
-import json, os
-from .. import run_driver_sharded, ML
+"""Check of property C02 - open-file I/O behaves as os.File.
+
+Streams (one harness run, see harness/cmd/avfscheck/fileio.go):
+  A  MemFS and OrefaFS        vs the extracted IMPLEMENTATION model (MemFile.v through World.wstep)  - must agree
+  B  *os.File on tmpfs        vs the extracted SPECIFICATION (FileSpec.v)                            - must agree
+  O  MemFS / OrefaFS          vs *os.File directly; every deviation must be classified by the extracted
+                                 kf02 / kf02_orefa / kfdir (evaluated on the specification state) and be listed
+                                 in known_findings.jsonl; anything else is a VIOLATION.
+"""
+import os
+from .. import run_driver_sharded, log
 from ..props import CHECKS
 
 STREAM = {"name": "fileio", "harness": "fileio", "driver": "fileio"}
+OSTREAM = {"name": "fileio-o", "harness": "fileio-o", "driver": "fileio-o"}
 
 
 def fields(step):
-    """'m:.. o:.. s:.. vm:..' -> dict"""
     d = {}
     for f in step.split(" "):
         k, _, v = f.partition(":")
@@ -28,9 +36,9 @@ def first_diff(model, observed):
 
 
 def classify(case, observed, kfs):
-    """Compare each implementation with os.File step by step, up to the first step classified by kf02
-    (MemFS) / kf02_orefa (OrefaFS).  Returns a list, per world, of
-    (world, kf_name or None, reproduced?, deviation or None); deviation = (field, step, impl, os)."""
+    """Per world ('m' MemFS, 'o' OrefaFS): walk the steps; before the first step classified by the extracted
+    classifier every result and view must equal os.File's.  Returns [(world, class or None, reproduced,
+    deviation or None)], deviation = (field, step, impl, os)."""
     steps = [fields(st) for st in observed.split(" | ")]
     kf = [k.split(",") for k in kfs.split(" | ")]
     isdir = case.startswith("dir")
@@ -60,67 +68,132 @@ def run_kf(ctx, name):
     kff = os.path.join(ctx.dir, name + ".kf")
     err = run_driver_sharded("fileio-kf", cases, kff)
     if err:
-        ctx.broken("model-run:" + name + "-kf", "the classifier driver failed", err[-3000:])
+        ctx.broken("model-run:" + name + "-kf", "the classifier driver (extracted kf02) failed", err[-3000:])
         return None
     return kff
 
 
 def analyse(ctx, name, limit=3):
-    """The O comparison (implementation vs os.File) with the extracted classifier."""
     kff = run_kf(ctx, name)
     if kff is None:
         return None
-    stats = {"kf_hits": {}, "kf_reproduced": {}, "unclassified": 0, "histories_clean": 0}
+    stats = {"kf_hits": {}, "kf_reproduced": {}, "unclassified": 0, "world_histories_compared_to_the_end": 0,
+             "steps_compared_with_os": 0}
     bad = []
     with open(os.path.join(ctx.dir, name + ".cases")) as fc, open(os.path.join(ctx.dir, name + ".observed")) as fo, open(kff) as fk:
         for i, (c, o, k) in enumerate(zip(fc, fo, fk)):
             c, o, k = c.rstrip("\n"), o.rstrip("\n"), k.rstrip("\n")
+            nsteps = o.count(" | ") + 1
             for (world, hit, repro, dev) in classify(c, o, k):
                 if dev is not None:
                     stats["unclassified"] += 1
                     if len(bad) < limit:
                         bad.append((i, c, o, k, dev))
                 elif hit:
-                    key = ("orefafs:" if world == "o" else "") + hit
-                    stats["kf_hits"][key] = stats["kf_hits"].get(key, 0) + 1
+                    stats["kf_hits"][hit] = stats["kf_hits"].get(hit, 0) + 1
                     if repro:
-                        stats["kf_reproduced"][key] = stats["kf_reproduced"].get(key, 0) + 1
+                        stats["kf_reproduced"][hit] = stats["kf_reproduced"].get(hit, 0) + 1
                 else:
-                    stats["histories_clean"] += 1
+                    stats["world_histories_compared_to_the_end"] += 1
+                    stats["steps_compared_with_os"] += nsteps
     return stats, bad
+
+
+def report_ab(ctx, mm, tag="fileio"):
+    """A / B mismatches: model and observation differ."""
+    for (i, c, m, o) in mm[:2]:
+        case = ctx.shrink(STREAM["name"], STREAM["harness"], STREAM["driver"], c)
+        mm2 = ctx.stream(STREAM["name"] + "-shrink", STREAM["harness"], STREAM["driver"], replay_lines=[case])
+        if mm2:
+            _, c2, m, o = mm2[0]
+        d = first_diff(m, o)
+        which = "?"
+        if d:
+            ks = d[1]
+            which = ("os.File differs from the specification FileSpec.v (the SPECIFICATION is wrong or the oracle changed)"
+                     if any(x in ("s", "vs") for x in ks) else
+                     "MemFS/OrefaFS differ from the implementation model MemFile.v (fields %s)" % ",".join(ks))
+        ctx.violation(tag, "%s at step %s; %d histories mismatch" % (which, d[0] if d else "?", len(mm)),
+                      {"stream": STREAM, "case": case, "model": m, "observed": o, "mismatching_cases_in_run": len(mm)})
+
+
+def report_dev(ctx, bad, total):
+    """Unclassified deviations from os.File: shrink on the O projection and record a replay."""
+    for (i, c, o, k, dev) in bad[:2]:
+        case = ctx.shrink(OSTREAM["name"], OSTREAM["harness"], OSTREAM["driver"], c)
+        mm2 = ctx.stream(OSTREAM["name"] + "-shrink", OSTREAM["harness"], OSTREAM["driver"], replay_lines=[case])
+        m2, o2 = ("", "")
+        if mm2:
+            _, _, m2, o2 = mm2[0]
+        ctx.violation("fileio-dev",
+                      "deviation from os.File that no kf02 constructor classifies: world %s, field %s at step %d: implementation %s, os.File %s (%d in this run)"
+                      % ({"m": "MemFS", "o": "OrefaFS"}.get(dev[0][-1], dev[0]), dev[0], dev[1], dev[2], dev[3], total),
+                      {"stream": OSTREAM, "case": case, "model": m2, "observed": o2, "expected": "eq at every step before the first classified one",
+                       "engine": "fileio-o: per step, implementation result and views versus os.File"})
+
+
+def witnesses(ctx):
+    """Every open known finding has a witness history; it must still be classified as such by the extracted
+    classifier and still deviate on the real implementation, then it is printed as KNOWN-FINDING."""
+    entries = [k for k in ctx.kf if k.get("witness")]
+    if not entries:
+        return set()
+    lines = [k["witness"] for k in entries]
+    mm = ctx.stream("fileio-wit", "fileio", "fileio", replay_lines=lines)
+    if mm is None:
+        return set()
+    if mm:
+        report_ab(ctx, mm, "fileio-wit")
+    kff = run_kf(ctx, "fileio-wit")
+    if kff is None:
+        return set()
+    listed = set()
+    with open(os.path.join(ctx.dir, "fileio-wit.observed")) as fo, open(kff) as fk:
+        for e, o, k in zip(entries, fo, fk):
+            res = classify(e["witness"], o.rstrip("\n"), k.rstrip("\n"))
+            listed.add(e["id"])
+            ok = any(hit == e["id"] and repro for (_, hit, repro, _) in res)
+            if ok:
+                ctx.known_finding(e["id"], e["what"])
+            else:
+                log("  note: the witness of known finding %s no longer deviates / is no longer classified: %s" % (e["id"], res))
+    ctx.coverage["known_finding_witnesses"] = len(entries)
+    return listed
 
 
 def check_C02(ctx):
     ctx.proofs()
+    listed = witnesses(ctx)
     mm = ctx.stream("fileio", "fileio", "fileio")
     if mm is None:
         return
-    # A (MemFS / OrefaFS vs implementation model) and B (os.File vs specification)
-    for (i, c, m, o) in mm[:3]:
-        d = first_diff(m, o)
-        ctx.violation("fileio", "model and observation differ on %d histories (fields %s at step %s)" % (len(mm), d[1] if d else "?", d[0] if d else "?"),
-                      {"stream": STREAM, "case": c, "model": m, "observed": o, "mismatching_cases_in_run": len(mm)})
+    if mm:
+        report_ab(ctx, mm)
     res = analyse(ctx, "fileio")
     if res is None:
         return
     stats, bad = res
     ctx.coverage["streams"]["fileio"]["classification"] = stats
-    for (i, c, o, k, dev) in bad:
-        ctx.violation("fileio-dev", "unclassified deviation from os.File in world %s at step %d: impl %s, os %s" % dev,
-                      {"stream": STREAM, "case": c, "observed": o, "kf": k})
-    for kf in ctx.kf:
-        if stats["kf_reproduced"].get(kf["id"]):
-            ctx.known_finding(kf["id"], kf["what"])
+    if bad:
+        report_dev(ctx, bad, stats["unclassified"])
+    unlisted = sorted(k for k in stats["kf_reproduced"] if k not in listed)
+    if unlisted:
+        ctx.broken("known-findings", "deviation classes %s reproduce but are not listed as open in known_findings.jsonl" % unlisted,
+                   "every kf02 / kf02_orefa / kfdir constructor that fires needs an open entry with a witness")
+    ctx.assumptions.append(
+        "refinement theorems C02_refine / C02_history cover handle operations, Open and path-level Truncate of existing names "
+        "for an administrator view on a Linux-flavoured MemFS; Rename/Link/Remove interleavings, OrefaFS and the directory-handle "
+        "specification are covered by the differential run only (plus the unbounded theorems C02_unlinked_*, C02_dir_batches*)")
 
 
 def check_fiodev(ctx):
     """development entry: stream + classification, verbose"""
+    import json
     mm = ctx.stream("fileio", "fileio", "fileio")
     if mm is None:
         return
     print("A/B mismatching histories: %d" % len(mm))
     seen = set()
-    shown = 0
     for (i, c, m, o) in mm:
         d = first_diff(m, o)
         if not d:
@@ -129,12 +202,9 @@ def check_fiodev(ctx):
         ops = c.split(" | ")[1:]
         fa, fb = fields(a), fields(b)
         sig = (ops[k].split()[0], tuple(keys))
-        if sig in seen:
+        if sig in seen or len(seen) > 12:
             continue
         seen.add(sig)
-        shown += 1
-        if shown > 12:
-            break
         print("history %d step %d op %s  [%s]" % (i, k, ops[k], " | ".join(ops[:k])))
         for key in keys:
             print("   %s model: %s\n   %s obs:   %s" % (key, fa.get(key), key, fb.get(key)))
